@@ -39,9 +39,9 @@ def pick(draw, values):
 
 @st.composite
 def elastic_specs(draw, hetero_ok=True):
-    kinds = ["iso", "iso", "iso", "tiso", "ortho"] + (["hetero"] if hetero_ok else [])
+    kinds = ["iso", "tiso", "ortho"] + (["hetero"] if hetero_ok else []) + ["iso"]
     kind = pick(draw, kinds)
-    E = pick(draw, [2.0e5, 2.0e5, 7.0e4, 1.0, 2.1e11])
+    E = pick(draw, [2.0e5, 7.0e4, 210.0, 2.1e11, 2.0e5])
     v = draw(st.integers(0, 9)) / 20.0
     return dict(kind=kind, E=E, v=v, ax=draw(st.integers(0, len(AXES) - 1)))
 
